@@ -76,7 +76,9 @@ def main():
     m={"version":1,
        "setup_cmd":"cd /verif && ./setup.sh",
        "hooks":{"guard":"cargo feature verif-hooks","enable":"hbs-lms = { path = \"/repo\", features = [\"verif-hooks\"] } in /verif/harness/Cargo.toml","baseline_off_cmd":"cd /repo && cargo test --workspace --no-fail-fast --offline","source_commits":HOOK_COMMITS,"add_only":True},
-       "engines":[{"name":"vcheck","path":"/verif/harness","serves_properties":sorted(CHECKS),"kind_free_text":"Rust binary: proptest TestRunner driven from a binary (seeded by VERIF_SEED, 16 workers, shrinking, JSON replay files), parallel exhaustive enumerators, independent reference model"}],
+       "engines":[{"name":"vcheck","path":"/verif/harness","serves_properties":sorted(CHECKS),"kind_free_text":"Rust binary: proptest TestRunner driven from a binary (seeded by VERIF_SEED, 16 workers, shrinking, JSON replay files), parallel exhaustive enumerators, targeted searches, independent reference model (RFC 8554 + hash-sigs derivations + aux layout)"},
+                  {"name":"vprobe","path":"/verif/probe","serves_properties":["C14","C15"],"kind_free_text":"JSON-line executor of library operations, built once per build configuration (HBS_LMS_* limits; fast_verify feature with THREADS / MAX_HASH_OPTIMIZATIONS); all checking stays in vcheck"},
+                  {"name":"cargo-fuzz","path":"/verif/fuzz","serves_properties":["C06","C02","C11"],"kind_free_text":"libFuzzer targets fz_verify / fz_signer (nightly) whose bodies are the same decoder + semantic oracle as the stable harness (harness/src/fuzzdec.rs); thorough tier only, driven by fuzz.sh; artifacts are re-checked on the stable build"}],
        "checks":checks,
        "not_applicable":na,
        "notes":"Exit 0 = held on everything explored (KNOWN-FINDING lines for entries of known_findings.json); 1 = VIOLATION line; 2 = inconclusive (harness build failure / watchdog). See DESIGN.md."}
